@@ -35,6 +35,17 @@ def programs(ctx):
             c = [{'part': 'always', 'head': ('choice', ['a', 'b']), 'body': []},
                  {'part': part, 'head': ('neghead', 'n', 'a', d1), 'body': [('p', ('fatom', 'b', d2)), ('p', ('patom', 'a', 0))]}]
             progs.append(('two-depths', c))
+    # fixed family: classically negated atoms before / between / after future heads of the other sign (the sign of a future predicate is the
+    # sign of that very head, wherever the statement stands)
+    for part in ('initial', 'always', 'dynamic'):
+        for d in (1, 2):
+            neg = {'part': 'always', 'head': ('norm', '-a', 0), 'body': [('n', ('patom', 'a', 0))]}
+            ch = {'part': 'always', 'head': ('choice', ['b']), 'body': []}
+            fut = {'part': part, 'head': ('norm', 'a', d), 'body': [('p', ('patom', 'b', 0))]}
+            nfut = {'part': part, 'head': ('norm', '-b', d), 'body': [('n', ('patom', 'b', 0))]}
+            fut2 = {'part': part, 'head': ('norm', 'c', 1), 'body': [('p', ('patom', 'b', 0))]}
+            for order in ([neg, ch, fut], [fut, ch, neg], [ch, neg, fut], [nfut, ch, fut2], [fut2, ch, nfut], [neg, nfut, ch, fut2]):
+                progs.append(('sign-order', order))
     return progs
 
 
